@@ -363,16 +363,36 @@ def match_and_trim_once(c):
 
 
 def stats_install(world):
+    """Ghost model of the per-adapter statistics objects at the registration sites (C20): every
+    add_match call is appended to the ghost sequences $tally (match id) / $tally_key (adapter id);
+    increments of `reverse_complemented` are summed in $rc_total."""
     from pyvc.calls import Mut
-    world.handlers[("StatsMap", "__getitem__")] = lambda ex, st, m, idx, node, spec: ObjV("StatsView", {"key": idx, "reverse_complemented": fresh("stats.rc", I)})
-    world.handlers[("StatsView", "add_match")] = lambda ex, st, v, a, k, n, s: None
+
+    def getitem(ex, st, m, idx, node, spec):
+        return ObjV("StatsView", {"key": idx, "reverse_complemented": fresh("stats.rc", I)})
+
+    def add_match(ex, st, v, a, k, n, s):
+        m = a[0]
+        t = st.env.get("$tally") or SeqV(z3.K(I, z3.IntVal(0)), z3.IntVal(0), None)
+        kk = st.env.get("$tally_key") or SeqV(z3.K(I, z3.IntVal(0)), z3.IntVal(0), None)
+        st.env["$tally"] = SeqV(z3.Store(t.arr, t.n, m.fields["__id__"]), t.n + 1, None)
+        st.env["$tally_key"] = SeqV(z3.Store(kk.arr, kk.n, v.fields["key"].fields["__id__"]), kk.n + 1, None)
+        return None
+
+    def set_rc(ex, st, v, newval, node):
+        st.env["$rc_total"] = st.env.get("$rc_total", z3.IntVal(0)) + (newval - v.fields["reverse_complemented"])
+        return v.with_field("reverse_complemented", newval)
+
+    world.handlers[("StatsMap", "__getitem__")] = getitem
+    world.handlers[("StatsView", "add_match")] = add_match
+    world.setattr_handlers[("StatsView", "reverse_complemented")] = set_rc
 
 
 def install(world):
     stats_install(world)
 
 
-@contract("modifiers.py", "AdapterCutter.__call__", props=["C03", "C09"])
+@contract("modifiers.py", "AdapterCutter.__call__", props=["C03", "C09", "C20"])
 def adapter_cutter_call(c):
     c.types(self=CutterT, read=Record, info=InfoT)
     c.returns(Record)
@@ -383,8 +403,17 @@ def adapter_cutter_call(c):
     c.requires(rec=REC_WF, action_ok=ACTION_OK,
                single_round_for_retain_and_crop="implies(%s or %s, self.times == 1)" % (IS("retain"), IS("crop")),
                crop_not_with_linked="implies(%s, no_linked(self.adapters))" % IS("crop"))
-    c.loop(1, head="for match in matches", inv=["0 <= __k1 <= len(matches)"])
+    c.ghost("g_t0 = tally_len()", at_start=True)
+    c.loop(1, head="for match in matches", inv=[
+        "0 <= __k1 <= len(matches)",
+        "tally_len() == g_t0 + __k1",
+        "forall(t, 0, __k1, tally_id(g_t0 + t) == elem(matches, t).__id__ and tally_key(g_t0 + t) == elem(matches, t).adapter.__id__)",
+        ])
     c.ensures(**_subst(MT_POST, "result", "matches"))
+    c.ensures(
+        statistics_registered_once_per_recorded_match="tally_len() == g_t0 + len(matches) and forall(t, 0, len(matches), "
+            "tally_id(g_t0 + t) == elem(matches, t).__id__ and tally_key(g_t0 + t) == elem(matches, t).adapter.__id__)",
+    )
     c.ensures(
         counted_once_if_any_match="self.with_adapters == old(self.with_adapters) + (1 if len(matches) > 0 else 0)",
         matches_recorded_in_order="len(info.matches) == len(old(info.matches)) + len(matches) and "
@@ -394,6 +423,7 @@ def adapter_cutter_call(c):
     c.mutant("self.with_adapters += 1", "self.with_adapters += len(matches)")
     c.mutant("info.matches.extend(matches)", "info.matches = matches")
     c.mutant("return trimmed_read", "return read")
+    c.mutant("self.adapter_statistics[match.adapter].add_match(match)", "self.adapter_statistics[matches[0].adapter].add_match(match)")
 
 
 # ------------------------------------------------------------------------------ --pair-adapters
@@ -434,7 +464,7 @@ def side_post(n, read, match):
     }
 
 
-@contract("modifiers.py", "PairedAdapterCutter.__call__", props=["C03", "C05"])
+@contract("modifiers.py", "PairedAdapterCutter.__call__", props=["C03", "C05", "C20"])
 def paired_adapter_cutter_call(c):
     c.types(self=PairedCutterT, read1=Record, read2=Record, info1=InfoT, info2=InfoT)
     c.returns(TupT(Record, Record))
@@ -447,7 +477,11 @@ def paired_adapter_cutter_call(c):
                action_ok=ACTION_OK, distinct_reads="read1.__id__ != read2.__id__")
     c.ensures(**side_post(0, "read1", "val(best_matches)[0]"))
     c.ensures(**side_post(1, "read2", "val(best_matches)[1]"))
+    c.ghost("g_t0 = tally_len()", at_start=True)
     c.ensures(
+        statistics_registered_once_per_side="tally_len() == g_t0 + (0 if is_none(best_matches) else 2) and implies(not is_none(best_matches), "
+            "tally_id(g_t0) == val(best_matches)[0].__id__ and tally_id(g_t0 + 1) == val(best_matches)[1].__id__ and "
+            "tally_key(g_t0) == val(best_matches)[0].adapter.__id__ and tally_key(g_t0 + 1) == val(best_matches)[1].adapter.__id__)",
         both_or_neither="True",
         counted_once="self.with_adapters == old(self.with_adapters) + (0 if is_none(best_matches) else 1)",
         matches_recorded="implies(not is_none(best_matches), len(info1.matches) == len(old(info1.matches)) + 1 and len(info2.matches) == len(old(info2.matches)) + 1 and "
